@@ -35,7 +35,9 @@ def case_strategy(draw, big=False):
     case['theta'] = [t0, gen.r6(draw(st.floats(1, 30))), draw(st.integers(1, 6))]
     case['phi'] = [gen.r6(draw(st.floats(-180, 180))), gen.r6(draw(st.floats(5, 120))), draw(st.integers(1, 5))]
     case['pwr'] = gen.r6(draw(gen.logf(1e-3, 1e6))) if draw(st.booleans()) else None
-    case['dist'] = gen.r6(draw(gen.logf(1.0, 1e6)))
+    # (a power level may be requested without a distance: the field is then not divided by a distance but still
+    # scaled to that power - the RD = 0 case of the original program)
+    case['dist'] = gen.r6(draw(gen.logf(1.0, 1e6))) if draw(st.integers(0, 4)) else None
     case['pwr2'] = gen.r6(draw(gen.logf(1e-3, 1e6)))
     case['dist2'] = gen.r6(draw(gen.logf(1.0, 1e6)))
     # options that must not influence any number: time measurement
@@ -96,7 +98,10 @@ def check(case):
     pw, dist = case['pwr'], case['dist']
     labels.append('power-distance')
     nt = True
-    kw = {'dist': dist}
+    kw = {'dist': dist} if dist else {}
+    if not dist:
+        labels.append('no-distance')
+        dist = 1.0
     if pw is not None:
         kw['pwr'] = pw
     for w_ in range(case.get('warm', 0)):
